@@ -277,6 +277,21 @@ fn c03_histories(c: &WigCase, depth: usize, cached: bool, bytes: &[u8], out: &mu
                 alpha.push((ci, s, e));
             }
         }
+        // zoom queries are operations of the history too (a reader caches index roots per kind);
+        // encoded as chromosome index + 1000, answered against a fresh reader's answer
+        let levels: Vec<u32> = BigWigRead::open(Cursor::new(bytes.to_vec())).map(|r| r.info().zoom_headers.iter().map(|z| z.reduction_level).collect()).unwrap_or_default();
+        let mut fresh_zoom: std::collections::HashMap<(usize, u32, u32), Result<Vec<(u32, u32)>, String>> = std::collections::HashMap::new();
+        if let Some(&lv) = levels.first() {
+            for (ci, ch) in c.chroms.iter().enumerate() {
+                for (s, e) in [(0u32, ch.len), (3, 9)] {
+                    let mut fr = BigWigRead::open(Cursor::new(bytes.to_vec())).unwrap();
+                    let ans = fr.get_zoom_interval(&ch.name, s, e, lv).map_err(|e| format!("{}", e)).and_then(|it| it.map(|z| z.map(|z| (z.start, z.end)).map_err(|e| format!("{}", e))).collect::<Result<Vec<_>, _>>());
+                    fresh_zoom.insert((ci, s, e), ans);
+                    alpha.push((ci + 1000, s, e));
+                }
+            }
+            out.count("history_zoom_operations", fresh_zoom.len() as u64);
+        }
         out.count("history_alphabet_size", alpha.len() as u64);
         // enumerate all sequences of length exactly `depth` (prefixes cover shorter ones)
         let n = alpha.len();
@@ -294,6 +309,16 @@ fn c03_histories(c: &WigCase, depth: usize, cached: bool, bytes: &[u8], out: &mu
             macro_rules! run {
                 ($rd:expr) => {{
                     for (ci, s, e) in &seq {
+                        if *ci >= 1000 {
+                            let ch = &c.chroms[*ci - 1000];
+                            let lv = levels[0];
+                            let got = $rd.get_zoom_interval(&ch.name, *s, *e, lv).map_err(|e| format!("{}", e)).and_then(|it| it.map(|z| z.map(|z| (z.start, z.end)).map_err(|e| format!("{}", e))).collect::<Result<Vec<_>, _>>());
+                            let want = fresh_zoom.get(&(*ci - 1000, *s, *e)).unwrap();
+                            if got != *want {
+                                out.fail("zoom_answer_depends_on_history", &tags, format!("history {:?}: zoom query {} [{},{}) gives {:?}, a fresh reader gives {:?}", seq, ch.name, s, e, got, want));
+                            }
+                            continue;
+                        }
                         let ch = &c.chroms[*ci];
                         let g = $rd
                             .get_interval(&ch.name, *s, *e)
@@ -732,6 +757,19 @@ fn c04_histories(c: &BedCase, depth: usize, cached: bool, bytes: &[u8], out: &mu
                 }
             }
         }
+        let levels: Vec<u32> = BigBedRead::open(Cursor::new(bytes.to_vec())).map(|r| r.info().zoom_headers.iter().map(|z| z.reduction_level).collect()).unwrap_or_default();
+        let mut fresh_zoom: std::collections::HashMap<(usize, u32, u32), Result<Vec<(u32, u32)>, String>> = std::collections::HashMap::new();
+        if let Some(&lv) = levels.first() {
+            for (ci, ch) in c.chroms.iter().enumerate() {
+                for (s, e) in [(0u32, ch.len), (3, 9)] {
+                    let mut fr = BigBedRead::open(Cursor::new(bytes.to_vec())).unwrap();
+                    let ans = fr.get_zoom_interval(&ch.name, s, e, lv).map_err(|e| format!("{}", e)).and_then(|it| it.map(|z| z.map(|z| (z.start, z.end)).map_err(|e| format!("{}", e))).collect::<Result<Vec<_>, _>>());
+                    fresh_zoom.insert((ci, s, e), ans);
+                    alpha.push((ci + 1000, s, e));
+                }
+            }
+            out.count("history_zoom_operations", fresh_zoom.len() as u64);
+        }
         let n = alpha.len();
         let total = n.pow(depth as u32);
         let mut states = std::collections::HashSet::new();
@@ -746,6 +784,16 @@ fn c04_histories(c: &BedCase, depth: usize, cached: bool, bytes: &[u8], out: &mu
             macro_rules! run {
                 ($rd:expr) => {{
                     for (ci, s, e) in &seq {
+                        if *ci >= 1000 {
+                            let ch = &c.chroms[*ci - 1000];
+                            let lv = levels[0];
+                            let got = $rd.get_zoom_interval(&ch.name, *s, *e, lv).map_err(|e| format!("{}", e)).and_then(|it| it.map(|z| z.map(|z| (z.start, z.end)).map_err(|e| format!("{}", e))).collect::<Result<Vec<_>, _>>());
+                            let want = fresh_zoom.get(&(*ci - 1000, *s, *e)).unwrap();
+                            if got != *want {
+                                out.fail("zoom_answer_depends_on_history", &tags, format!("history {:?}: zoom query {} [{},{}) gives {:?}, a fresh reader gives {:?}", seq, ch.name, s, e, got, want));
+                            }
+                            continue;
+                        }
                         let ch = &c.chroms[*ci];
                         let g = $rd
                             .get_interval(&ch.name, *s, *e)
